@@ -61,25 +61,36 @@ Print Assumptions C01_recovery_uses_the_chosen_header.
    For every interleaving of Schedule / Sync calls with nextCommand calls of ANY buffer sizes: what the goroutine has
    been handed so far, followed by what the queue still holds, is the sequence of writes and syncs in the order they
    were scheduled. A sync is executed after all writes scheduled before it and before every write scheduled later. *)
-From VF Require Import WriterQueue WriterQueueProofs.
-Theorem C01_writer_queue_preserves_schedule : forall ops s,
+From VF Require Import Writer WriterProofs WriterQueue WriterQueueProofs WriterComposeProofs.
+Theorem C01_writer_queue_preserves_schedule : forall (A : Type) (ops : list (qop A)) (s : wq A),
   Inv s -> buffers_ok ops ->
   let '(s', out, inp) := wq_run s ops in
   out ++ remaining s' = remaining s ++ inp /\ Inv s'.
-Proof. exact queue_preserves_schedule. Qed.
+Proof. intros A. exact queue_preserves_schedule. Qed.
 Print Assumptions C01_writer_queue_preserves_schedule.
 
-Theorem C01_writer_executes_the_schedule : forall ops,
+Theorem C01_writer_executes_the_schedule : forall (A : Type) (ops : list (qop A)),
   buffers_ok ops ->
   let '(s', out, inp) := wq_run wq_init ops in
   out ++ remaining s' = inp /\ (remaining s' = [] -> out = inp).
-Proof. exact executed_is_schedule. Qed.
+Proof. intros A. exact executed_is_schedule. Qed.
 Print Assumptions C01_writer_executes_the_schedule.
+
+(* queue + batch execution (stable sort inside a batch): at every moment the executed events are a prefix of the
+   schedule and the disk holds, for every page, the last write of that prefix *)
+Theorem C01_writer_executes_a_prefix_of_the_schedule : forall ops : list (qop wmsg),
+  buffers_ok ops ->
+  let '(s', out, inp) := wq_run wq_init ops in
+  (exists rest, inp = out ++ rest) /\
+  (forall d p, run_cmds d (wq_cmds wq_init ops) p = spec_disk d (writes_of out) p) /\
+  (remaining s' = [] -> out = inp).
+Proof. exact writer_executes_a_prefix_of_the_schedule. Qed.
+Print Assumptions C01_writer_executes_a_prefix_of_the_schedule.
 
 (* false for the variant that tests "sync due" against all queued writes and clamps to the buffer afterwards *)
 Theorem C01_late_clamp_refuted : exists ops,
   buffers_ok ops /\
   let '(s', out, inp) := wq_run_late wq_init ops in
-  remaining s' = [] /\ out <> inp /\ inp = [EW 1; EW 2; EW 3; ES] /\ out = [EW 1; EW 2; ES; EW 3].
+  remaining s' = [] /\ out <> inp /\ inp = [EW 1; EW 2; EW 3; ES]%nat /\ out = [EW 1; EW 2; ES; EW 3]%nat.
 Proof. exact late_clamp_refuted. Qed.
 Print Assumptions C01_late_clamp_refuted.
